@@ -1031,6 +1031,24 @@ fn run_case(c: &Case, text: &str, env: &mut Env, drv: &mut Driver, rep: &mut Rep
         };
         let m_sd = askd("ser");
         let m_pd = askd("par");
+        // An error visit presupposes that the walker reports the directory at all.  The rule of Spec/ReachDenied.lean
+        // is stated over the reachable entries; the serial walker, however, loses whole subtrees through the known
+        // defect F25 (later siblings of a skipped off-device directory) — with their error visits.  So the serial
+        // expectation is the rule restricted to the directories the serial MODEL (which has that defect) reports.
+        // Without F25 at work this restriction changes nothing.
+        let m_ser_entries: Vec<String> = {
+            let r = drv.ask(&format!(
+                "c06.walk serial {} (forest {}) (roots {})",
+                cfg_sx,
+                forest,
+                root_sx.join(" ")
+            ));
+            r.split_whitespace().map(|x| x.to_string()).collect()
+        };
+        let m_sd: Vec<String> = m_sd
+            .into_iter()
+            .filter(|d| m_ser_entries.contains(&format!("e:{}", d.trim_start_matches("D:"))))
+            .collect();
         if m_sd != ser_denied || m_pd != par_denied {
             rep.violation(Violation {
                 kind: "impl_vs_model".into(),
